@@ -1299,7 +1299,10 @@ def _pipeline_doc():
     po = El("path", {"id": "po", "opacity": N("oa"), "fill-opacity": N("ob"), "d": pd(("M", (95, 70)), ("L", (97, 70)), ("L", (97, 72)), ("Z", ()))}, name="po")
     uf = El("use", {XLINK_HREF: "#pf", "style": "fill:purple;opacity:0.5"}, name="uf")
     us = El("use", {XLINK_HREF: "#ps", "style": "fill:purple", "opacity": "0.5"}, name="us")
-    root = El("svg", {"viewBox": "0 0 100 100", "fill": "red", "{http://example.com/ns}attr": "x"}, junk + [defs, ga, gb, r, u, z2, ev, st, nested, cl, hidden, uf, us, gt, gc, po], name="root")
+    # a kept group whose opacity would become 1 if it were rounded to the 3 digits in use: the keep decision and what a second pass sees must agree
+    gr = El("g", {"opacity": "0.9996", "id": "gr"}, [El("path", {"id": "pr1", "d": pd(("M", (95, 80)), ("L", (97, 80)), ("L", (97, 82)), ("Z", ()))}),
+                                                    El("path", {"id": "pr2", "d": pd(("M", (95, 90)), ("L", (97, 90)), ("L", (97, 92)), ("Z", ())), "opacity": "0.4996"})], name="gr")
+    root = El("svg", {"viewBox": "0 0 100 100", "fill": "red", "{http://example.com/ns}attr": "x"}, junk + [defs, ga, gb, r, u, z2, ev, st, nested, cl, hidden, uf, us, gt, gc, po, gr], name="root")
     return root
 
 
@@ -1533,9 +1536,25 @@ def _struct_diffs(a, b, path="/svg"):
                 continue
             cid = dict(c[1]).get("id")
             if cid is None:
-                n = seen.get(c[0], 0)
-                seen[c[0]] = n + 1
-                cid = f"#{n}"
+                # an element without id is named after the first id found below it (stable when siblings come and go), else by position
+                def first_id(x):
+                    for y in x[2]:
+                        if y[0] == "#":
+                            continue
+                        i = dict(y[1]).get("id")
+                        if i is not None:
+                            return str(i).strip("'")
+                        i = first_id(y)
+                        if i is not None:
+                            return i
+                    return None
+                fid = first_id(c) if sum(1 for x in children if x[0] == c[0]) > 1 else None
+                if fid is not None and (c[0], f"#[{fid}..]") not in out_:
+                    cid = f"#[{fid}..]"
+                else:
+                    n = seen.get(c[0], 0)
+                    seen[c[0]] = n + 1
+                    cid = f"#{n}"
             out_.append((c[0], cid))
         return out_
     ka, kb = keys(a[2]), keys(b[2])
